@@ -33,8 +33,12 @@ COUNTED = {"effect", "raised", "unrefused", "wrong-exception"}
 
 
 def run_history(case, rec):
-    eng = Engine(case["spec"], typed=case.get("typed", False), spec2=case.get("spec2"), known=engine_known(rec))
+    eng = Engine(case["spec"], typed=case.get("typed", False), spec2=case.get("spec2"), known=engine_known(rec),
+                 flavour=case.get("flavour", "str"))
     changed = 0
+    if eng.build_problems:
+        rec.fail("effect:build:" + eng.build_problems[0][0], eng.build_problems[0])
+        return
     for op in case["ops"]:
         flush_excluded(eng, rec)
         size = eng.model.count()
@@ -97,6 +101,7 @@ def single_ops(spec, with_copies=True):
         yield ["set_data", i, None, "NEWID", None, False]
         yield ["set_data", i, "new", "NEWID", False, False]
         yield ["set_data", i, "new", None, True, False]
+        yield ["set_data", i, "new", "=", False, False]
         yield ["meta", i, "set", "k1", 1]
         for rev in (False, True):
             for deep in (None, True, False):
@@ -158,14 +163,16 @@ def enum_cases(tier):
                     yield {"spec": spec, "spec2": SPEC2, "ops": [op]}
 
 
-def hyp_cases(tier):
-    return st.one_of(
-        gen_ops.histories(typed=False, max_ops=40 if tier == "quick" else 80),
-        gen_ops.histories(typed=True, max_ops=40 if tier == "quick" else 80),
-    )
+@st.composite
+def hyp_cases(draw, tier):
+    typed = draw(st.booleans())
+    flavour = draw(st.sampled_from(["str", "str", "tuple", "dc", "obj_cb", "dictwrap"]))
+    case = draw(gen_ops.histories(typed=typed, max_ops=40 if tier == "quick" else 80, fresh=flavour != "str"))
+    case["flavour"] = flavour
+    return case
 
 
 PARTS = [
     Part("single-steps", run_history, enum=enum_cases),
-    Part("histories", run_history, strategy=hyp_cases, n={"quick": 300, "thorough": 120000}),
+    Part("histories", run_history, strategy=hyp_cases, n={"quick": 600, "thorough": 120000}),
 ]
